@@ -72,6 +72,17 @@ ZONES = [None, 'UTC', 'America/New_York', 'Europe/London', 'Asia/Tehran', 'Austr
          'America/Sao_Paulo', 'Asia/Kolkata']
 
 
+def regenerate(ctx):
+  """coq/gen/Schedule_gen.v from the current source (fail closed)."""
+  import os
+  from harness import sch2v, sch2v_bind
+  try:
+    text = sch2v_bind.generate(os.path.join(core.GRIST, 'functions', 'schedule.py'), impl())
+  except sch2v.Untranslatable as e:
+    raise core.TieBroken('functions/schedule.py is outside the translated subset or differs from a pinned text: %s' % e)
+  core.write_if_changed(os.path.join(core.COQ, 'gen', 'Schedule_gen.v'), text)
+
+
 class StepLimit(BaseException):
   pass
 
